@@ -4,7 +4,7 @@ PROCS = ['nogood:Simple', 'nogood:MinModMinPathsMaxVarImp', 'nogood:MinModMaxVar
          'nogood_channel:Simple', 'twoval_channel:Simple', 'twoval_channel:Custom']
 XP = {'nogood:Rand': {'max_draws': 40, 'skip_n4': True, 'branching': 3}, 'nogood:Custom': {'max_custom_calls': 20, 'skip_n4': True, 'branching': 3},
       'twoval_channel:Custom': {'max_custom_calls': 20, 'skip_n4': True, 'branching': 2}}
-spec0, validate = semprops.make(PROCS, 'nogood:Simple', extra_params=XP)
+spec0, validate = semprops.make(PROCS, 'nogood:Simple', extra_params=XP, backend_kinds=('stable_nogood', 'models_nogood'))
 def spec(ctx, tier, seed):
     s = spec0(ctx, tier, seed)
     s['bounds'] += (' Termination: a path that exceeds the MIR step fuel, 40 random draws or 20 custom-heuristic calls is a non-termination candidate '
@@ -12,5 +12,5 @@ def spec(ctx, tier, seed):
                     'that returns any undecided statement with any truth value (all choices explored).')
     for j in s['jobs']: j.max_steps = 400000
     return s
-replay = semjobs.replay
-key = semjobs.key
+replay = semprops.replay
+key = semprops.key
